@@ -47,7 +47,9 @@ class SFuture:
         fn(self)
 
 
-def _worker_loop(conn: Connection) -> None:
+def _worker_loop(conn: Connection, initializer=None, initargs=()) -> None:
+    if initializer is not None:        # ProcessPoolExecutor(initializer=..., initargs=...): once per worker process
+        initializer(*initargs)
     while True:
         try:
             msg = conn.recv()
@@ -74,8 +76,9 @@ class SchedPool:
         pool = self
 
         class Executor:
-            def __init__(self, max_workers=None, *a, **kw):
+            def __init__(self, max_workers=None, mp_context=None, initializer=None, initargs=(), **kw):
                 pool.max_workers_seen = max_workers
+                pool.initializer, pool.initargs = initializer, tuple(initargs)
 
             def __enter__(self):
                 return self
@@ -106,7 +109,7 @@ class SchedPool:
             parent.close()
             for _, (_, c) in self.workers.items():
                 c.close()
-            _worker_loop(child)
+            _worker_loop(child, getattr(self, "initializer", None), getattr(self, "initargs", ()))
         child.close()
         self.workers[w] = (pid, parent)
         self.pids[pid] = w
